@@ -459,6 +459,27 @@ def gen_cases(rng, tier):
             c["tag"] = "malformed-noheader-prog"
             c["in"]["text"] = rng.choice(["ACGT\n", "N\n", "ANA\n"]) + c["in"]["text"]
         cases.append(c)
+    # round 5b: get_regions run as the loop read from the source, from the source's own `None` initial state (op
+    # get_regions_src): valid files, blank lines before the first header (skipped), every kind of sequence line before
+    # the first header (TypeError: all-N, leading-N mixed, leading-base mixed, N-free, unterminated), header-less files
+    for k in range({"quick": 120, "thorough": 2000, "search": 150}[tier]):
+        names, headers, seqs, style = _gen_file(rng)
+        kind = k % 4
+        blanks = "".join(rng.choice(["\n", " \n", "\t\r\n", "\r\n"]) for _ in range(rng.randint(0, 3)))
+        if kind == 0:
+            c = _mk("get_regions_src", "src-scan", names, headers, seqs, style)
+        elif kind == 1:
+            c = _mk("get_regions_src", "src-leadblank", names, headers, seqs, style)
+            c["in"]["text"] = (blanks or "\n") + c["in"]["text"]
+        elif kind == 2:
+            c = _mk("get_regions_src", "malformed-noheader-src", names, headers, seqs, style)
+            junk = rng.choice(["ACGT\n", "N\n", "NNNN\n", "ANA\n", "NAC\n", "NNA\n", "ACNNGT\n", "acgt\n", "N \r\n",
+                               "x\n"])
+            c["in"]["text"] = blanks + junk + c["in"]["text"]
+        else:
+            c = _mk("get_regions_src", "malformed-noheader-src", [], [], [], style)
+            c["in"]["text"] = rng.choice(["", blanks, blanks + "ACGT", blanks + "NN\n" + blanks, "NAN", blanks + "\n"])
+        cases.append(c)
     return cases
 
 
@@ -481,7 +502,7 @@ def run_impl(case):
         fa = os.path.join(d, "genome.fa")
         with open(fa, "w", newline="") as f:
             f.write(i["text"])
-        if op == "get_regions":
+        if op in ("get_regions", "get_regions_src"):
             return [[str(c), int(s), int(e)] for c, s, e in access.get_regions(fa)]
         fns = []
         fmts = i.get("bedfmt") or []
@@ -592,6 +613,9 @@ def judge(case, impl, resp):
     if "error" in resp:
         return [], ["model error: " + resp["error"]], None
     out = resp["out"]
+    if resp.get("src_agrees") is False:
+        return [], ["model: get_regions' loop as read from the source from `chrom = cursor = run_start = None` "
+                    "(C13N.c13nRegions) != getRegions [theorem get_regions_is_the_source_from_none]"], None
     impl_err = impl["__error__"] if isinstance(impl, dict) and "__error__" in impl else None
     model_err = out["raises"] if isinstance(out, dict) and "raises" in out else None
     if impl_err or model_err:
